@@ -17,6 +17,7 @@ In all three the *property monitors* (class Monitor: the property's formulas eva
 model involved) run after every step; only they produce violations.  A mismatch with the model alone is DRIFT.
 """
 import ast
+import functools
 import json
 import multiprocessing as mp
 import os
@@ -60,24 +61,48 @@ def _load():
 # ---------------------------------------------------------------------------------------------------------------------
 # concrete pixels
 
+_PAT = {}
+
+
 def pattern(h, w, fmt):
-    """Coordinate-encoding pixels: every channel differs from the others everywhere, so a channel swap is visible."""
-    y, x = np.mgrid[0:h, 0:w]
-    if fmt == 'GRAY':
-        return ((y * 31 + x * 7 + 11) % 256).astype(np.uint8)
-    return np.stack([(y * 31 + x * 7 + c * 85 + 11) % 256 for c in range(3)], axis=2).astype(np.uint8)
+    """Coordinate-encoding pixels: every channel differs from the others everywhere, so a channel swap is visible.
+    (read-only master copy; users copy it)"""
+    k = (h, w, fmt)
+    if k not in _PAT:
+        y, x = np.mgrid[0:h, 0:w]
+        if fmt == 'GRAY':
+            a = ((y * 31 + x * 7 + 11) % 256).astype(np.uint8)
+        else:
+            a = np.stack([(y * 31 + x * 7 + c * 85 + 11) % 256 for c in range(3)], axis=2).astype(np.uint8)
+        a.flags.writeable = False
+        _PAT[k] = a
+    return _PAT[k]
 
 
-def encode(img):
-    ok, buf = cv2.imencode('.jpg', np.ascontiguousarray(img))
+# the harness' own codec calls are memoised by content (they never touch objects of the code under test)
+@functools.lru_cache(maxsize=16384)
+def _enc(raw, shape):
+    ok, buf = cv2.imencode('.jpg', np.frombuffer(raw, np.uint8).reshape(shape))
     if not ok:
         raise MachineryError('cv2.imencode failed in the harness')
     return bytes(memoryview(buf))
 
 
+@functools.lru_cache(maxsize=16384)
+def _dec(blob, gray):
+    a = cv2.imdecode(np.frombuffer(blob, np.uint8), 0 if gray else cv2.IMREAD_COLOR)
+    if a is not None:
+        a.flags.writeable = False
+    return a
+
+
+def encode(img):
+    img = np.ascontiguousarray(img)
+    return _enc(img.tobytes(), img.shape)
+
+
 def decode(blob, fmt_or_flag):
-    gray = fmt_or_flag in ('GRAY', 'decG')
-    return cv2.imdecode(np.frombuffer(bytes(blob), np.uint8), 0 if gray else cv2.IMREAD_COLOR)
+    return _dec(bytes(blob), fmt_or_flag in ('GRAY', 'decG'))
 
 
 def conv_pixels(px, frm, to):
@@ -672,7 +697,7 @@ def work_walk(args):
 def probe_defects():
     """Which caching rule does the code under test implement?  Selects the Defects set of the *conformance* model
     (the spec has both variants); the property verdict does not depend on it."""
-    f = Frame(pattern(4, 5, 'BGR'), None, 'BGR')
+    f = Frame(pattern(4, 5, 'BGR').copy(), None, 'BGR')       # a writable BGR frame
     return {GENUINE} if f.ro_rgb is f.ro_rgb else set()
 
 
@@ -894,15 +919,15 @@ def run(ctx):
             rep.extra['cover_transitions'] = n_tr
             cover_runs = total.runs
             # ---- 3. simulate: behaviours of length 12, compared after every step --------------------------------
-            nsim = 300 if quick else 4000
+            nsim = 300 if quick else 1000
             simdir = os.path.join(tmp, 'sim')
             os.makedirs(simdir)
             c = make_cfg(f'{MODULE}_sim', tmp, 'sim', None, None, asis)
             r = run_tlc(SPEC_DIR, c, MODULE, simulate=f'file={simdir}/b,num={nsim}', depth=13, seed=1000 + ctx.seed,
-                        workers=1 if quick else 4, timeout=3000)
+                        workers=1 if quick else 4, timeout=3000)   # num is per worker
             if r.error or r.timed_out or r.violated:
                 raise MachineryError(f'simulation failed: {r.violated or r.error or "timeout"}\n{r.out[-2000:]}')
-            rep.add_tlc(f'{MODULE}_sim', r, f'{nsim} random behaviours of 12 operations for replay')
+            rep.add_tlc(f'{MODULE}_sim', r, f'{nsim} random behaviours of 12 operations per TLC worker, for replay')
             files = sorted(os.path.join(simdir, f) for f in os.listdir(simdir))
             sim = Acc()
             for a in pool.map(work_sim, [(c,) for c in chunks(files, 25)]):
